@@ -269,9 +269,65 @@ func (t *simTB) Failed() bool      { return t.failed }
 
 // RunShard explores one shard: rapid draws cases until the budget or deadline
 // is reached; the first unknown discrepancy is shrunk and recorded.
+// Batterer is implemented by properties that have a fixed, seed-independent
+// catalogue of cases to run before the seeded search (shard 0 only).
+type Batterer interface {
+	Battery(env *Env) (*Case, []*Out)
+	Slice(c *Case, idx []int) *Case
+}
+
+func runBattery(p Property, b Batterer, env *Env, reported map[string]bool) {
+	c, outs := b.Battery(env)
+	if c == nil {
+		return
+	}
+	env.Stats.Cases++
+	env.Stats.NoteNontrivial(caseHash(c))
+	for _, d := range p.Eval(c, outs) {
+		if env.Census {
+			env.Stats.Counters["sig:"+d.Sig]++
+			continue
+		}
+		if k := matchKnown(env.Known, p.ID(), d.Sig); k != nil {
+			env.Stats.KnownHit[k.Signature]++
+			continue
+		}
+		if reported[d.Sig] {
+			continue
+		}
+		reported[d.Sig] = true
+		idx := []int{0}
+		for _, i := range d.Runs {
+			if i != 0 {
+				idx = append(idx, i)
+			}
+		}
+		sc := b.Slice(c, idx)
+		so := make([]*Out, len(idx))
+		for k, i := range idx {
+			so[k] = outs[i]
+		}
+		// the sliced case must show the same discrepancy (detail text refers to new indices)
+		det := d.Detail
+		for _, d2 := range p.Eval(sc, so) {
+			if d2.Sig == d.Sig {
+				det = d2.Detail
+			}
+		}
+		r := Replay{Property: p.ID(), Signature: d.Sig, Detail: det + " [catalogue battery]", Seed: env.Seed, Shard: env.Shard, Tier: env.Tier, Case: *sc}
+		for _, o := range so {
+			r.Hashes = append(r.Hashes, o.Hash(true))
+		}
+		env.Stats.Violations = append(env.Stats.Violations, r)
+	}
+}
+
 func RunShard(p Property, env *Env) {
 	start := time.Now()
 	reported := map[string]bool{} // signatures already minimised and recorded by this shard
+	if b, ok := p.(Batterer); ok && env.Shard == 0 {
+		runBattery(p, b, env, reported)
+	}
 	for round := 0; round < maxRounds(env); round++ {
 		target := "" // signature being minimised
 		var last *Replay
